@@ -55,8 +55,15 @@ func (a *InternalAttributes) Validate() error {
 		return core.ErrEmptyString.Wrap("invalid recipient address")
 	}
 
-	if _, err := sdk.AccAddressFromBech32(a.Recipient); err != nil {
+	recipient, err := sdk.AccAddressFromBech32(a.Recipient)
+	if err != nil {
 		return errorsmod.Wrapf(err, "invalid recipient address")
+	}
+
+	// Forwarding to the Orbiter module account itself would be a
+	// successful transfer that leaves the funds on the module account.
+	if recipient.Equals(core.ModuleAddress) {
+		return core.ErrInvalidAttributes.Wrap("recipient cannot be the Orbiter module account")
 	}
 
 	return nil
